@@ -888,6 +888,12 @@ ComponentPtr flattenComponent(const ComponentEntityPtr &parent, ComponentPtr &co
             for (size_t j = 0; j < placeholderVariable->equivalentVariableCount(); ++j) {
                 auto localModelVariable = placeholderVariable->equivalentVariable(j);
                 auto importedComponentVariable = importedComponentCopy->variable(placeholderVariable->name());
+                if ((importedComponentVariable == nullptr) && importedComponentCopy->isImport()) {
+                    // The imported component is itself an import (a chain): carry the connection on a placeholder
+                    // variable until the next link of the chain is instantiated.
+                    importedComponentVariable = Variable::create(placeholderVariable->name());
+                    importedComponentCopy->addVariable(importedComponentVariable);
+                }
                 Variable::addEquivalence(importedComponentVariable, localModelVariable);
             }
         }
